@@ -1,7 +1,112 @@
-(* C13 — pipeline placeholder; replaced by the real statements *)
-From Gdsl.Model Require Import Base NodeOps.
-From Gdsl.Proofs Require Import NodeLemmas.
+(* C13 — Deserialising untrusted input never panics or builds a broken graph.
+   Model: coq/model/Serde.v: `decode_doc` (what the visitor accepts: a sequence of at most two elements, tuples of fixed
+   length, decoders for keys/values that may fail) ; `rebuild`; `deserialize = decode_doc ; rebuild`. The model has no panic
+   outcome: deserialize is a total function into {error, graph}; panics or hangs INSIDE serde_json/serde_cbor on arbitrary
+   bytes are outside the model and are only exercised by the correspondence (byte-level mutations). *)
+From Gdsl.Model Require Import Spec Serde.
+From Gdsl.Proofs Require Import SerdeProof.
 
-Theorem C13_placeholder_to_nil : forall (E : Type) v, to_ v (@nil (nat * E)) = [].
-Proof. exact to_nil. Qed.
-Print Assumptions C13_placeholder_to_nil.
+(* any document: an error, or a graph satisfying Inv (mirror/symmetry) with a well-formed container *)
+Theorem c13_total_and_sane :
+  forall (K V E : Type) (keqb : K -> K -> bool),
+       KeqbSpec keqb ->
+       forall (dk : value -> option K) (dv : value -> option V) (de : value -> option E) (doc : value),
+       deserialize keqb dk dv de doc = DErr K V E \/
+       (exists (h : heap K V E) (g : graph K),
+          deserialize keqb dk dv de doc = DOk h g /\ Inv h /\ GraphOK h g).
+Proof. exact deserialize_total. Qed.
+Print Assumptions c13_total_and_sane.
+
+(* on success the nodes are exactly the declared keys and every edge endpoint is declared *)
+Theorem c13_ok_from_document :
+  forall (K V E : Type) (keqb : K -> K -> bool),
+       KeqbSpec keqb ->
+       forall (ns : list (K * V)) (es : list (K * K * E)) (h' : heap K V E) (g' : graph K),
+       rebuild keqb ns es = DeOk h' g' ->
+       Inv h' /\
+       GraphOK h' g' /\
+       (forall k : K, g_contains keqb g' k = true <-> In k (map fst ns)) /\
+       (forall (s t : K) (e : E), In (s, t, e) es -> In s (map fst ns) /\ In t (map fst ns)).
+Proof. exact rebuild_ok_inv. Qed.
+Print Assumptions c13_ok_from_document.
+
+(* a repeated key keeps the first declared value *)
+Theorem c13_first_value_wins :
+  forall (K V E : Type) (keqb : K -> K -> bool),
+       KeqbSpec keqb ->
+       forall (l : list (K * V)) (h : heap K V E) (g : graph K),
+       let r := rebuild_nodes keqb h g l in
+       forall k : K,
+       g_contains keqb g k = false ->
+       forall (l1 : list (K * V)) (v : V) (l2 : list (K * V)),
+       l = l1 ++ (k, v) :: l2 ->
+       ~ In k (map fst l1) ->
+       exists u : nat, g_get keqb (snd r) k = Some u /\ nth_error (nodes (fst r)) u = Some (k, v).
+Proof. exact rebuild_nodes_first_wins. Qed.
+Print Assumptions c13_first_value_wins.
+
+(* on success every listed edge is connected, in listed order, nothing else; on failure the error names the first undeclared key *)
+Theorem c13_edges_in_order :
+  forall (K V E : Type) (keqb : K -> K -> bool),
+       KeqbSpec keqb ->
+       forall (es : list (K * K * E)) (h : heap K V E) (g : graph K),
+       GraphOK h g ->
+       Inv h ->
+       match rebuild_edges keqb h g es with
+       | DeOk h' g' =>
+           g' = g /\
+           Inv h' /\
+           nodes h' = nodes h /\
+           (forall (s t : K) (e : E),
+            In (s, t, e) es -> g_contains keqb g s = true /\ g_contains keqb g t = true) /\
+           (forall u : nat,
+            outs h' u =
+            outs h u ++
+            flat_map
+              (fun x : K * K * E =>
+               let (y, e) := x in
+               let (s, t) := y in
+               match g_get keqb g s with
+               | Some a =>
+                   match g_get keqb g t with
+                   | Some b => if a =? u then [(b, e)] else []
+                   | None => []
+                   end
+               | None => []
+               end) es) /\
+           (forall v : nat,
+            ins h' v =
+            ins h v ++
+            flat_map
+              (fun x : K * K * E =>
+               let (y, e) := x in
+               let (s, t) := y in
+               match g_get keqb g s with
+               | Some a =>
+                   match g_get keqb g t with
+                   | Some b => if b =? v then [(a, e)] else []
+                   | None => []
+                   end
+               | None => []
+               end) es)
+       | DeMissing _ _ k =>
+           exists (es1 : list (K * K * E)) (s t : K) (e : E) (es2 : list (K * K * E)),
+             es = es1 ++ (s, t, e) :: es2 /\
+             (forall (s' t' : K) (e' : E),
+              In (s', t', e') es1 -> g_contains keqb g s' = true /\ g_contains keqb g t' = true) /\
+             (g_contains keqb g s = false /\ k = s \/
+              g_contains keqb g s = true /\ g_contains keqb g t = false /\ k = t)
+       end.
+Proof. exact rebuild_edges_spec. Qed.
+Print Assumptions c13_edges_in_order.
+
+(* rebuild fails exactly when an edge names a key the document does not declare *)
+Theorem c13_error_iff_undeclared :
+  forall (K V E : Type) (keqb : K -> K -> bool),
+       KeqbSpec keqb ->
+       forall (ns : list (K * V)) (es : list (K * K * E)),
+       (exists k : K, rebuild keqb ns es = DeMissing V E k) <->
+       (exists (s t : K) (e : E), In (s, t, e) es /\ (~ In s (map fst ns) \/ ~ In t (map fst ns))).
+Proof. exact rebuild_err_iff. Qed.
+Print Assumptions c13_error_iff_undeclared.
+
